@@ -59,7 +59,7 @@ Ltac pieces :=
 
 Lemma spec_posts_last g st o : posts_last (spec_events g st o) = true.
 Proof.
-  destruct o as [k kw0|k id c v|k id kw0|k id|k id|k id fr|k|k id|k id]; unfold spec_events.
+  destruct o as [k kw0|k id c v|k id kw0|k id|k id|k id fr|k|k id|k id|k id]; unfold spec_events.
   - rewrite posts_last_app_nopost by apply no_post_sig_events. simpl app.
     cbn [posts_last]. rewrite andb_true_l.
     apply posts_last_run_posts; [apply no_write_after_part|apply no_other_sig_after_part; reflexivity|apply posts_last_after_part].
@@ -74,6 +74,7 @@ Proof.
   - reflexivity.
   - reflexivity.
   - reflexivity.
+  - destruct (is_nil _); [reflexivity|]. simpl app. cbn [posts_last]. apply posts_last_after_part.
   - destruct (is_nil _); [reflexivity|]. simpl app. cbn [posts_last]. apply posts_last_after_part.
 Qed.
 
@@ -90,7 +91,7 @@ Ltac oa :=
 Lemma spec_ordered g st o :
   ordered_around (fst (around o)) (snd (around o)) (spec_events g st o) = true.
 Proof.
-  destruct o as [k kw0|k id c v|k id kw0|k id|k id|k id fr|k|k id|k id]; unfold spec_events, around, fst, snd.
+  destruct o as [k kw0|k id c v|k id kw0|k id|k id|k id fr|k|k id|k id|k id]; unfold spec_events, around, fst, snd.
   - oa.
   - destruct (is_lazy k).
     + rewrite app_nil_r. apply ordered_around_nowrite, no_write_sig_events.
@@ -103,6 +104,7 @@ Proof.
   - reflexivity.
   - reflexivity.
   - reflexivity.
+  - destruct (is_nil _); [reflexivity|]. oa.
   - destruct (is_nil _); [reflexivity|]. oa.
 Qed.
 
@@ -118,7 +120,7 @@ Lemma spec_counts g st o s i :
   count (is_sig_to s i) (spec_events g st o)
   = if owed st o s then count (fun p : Z * act => Z.eqb i (fst p)) (sel s (tab g (op_cls o))) else 0%nat.
 Proof.
-  destruct o as [k kw0|k id c v|k id kw0|k id|k id|k id fr|k|k id|k id]; unfold spec_events, owed, before_sig, after_sig, op_cls.
+  destruct o as [k kw0|k id c v|k id kw0|k id|k id|k id fr|k|k id|k id|k id]; unfold spec_events, owed, before_sig, after_sig, op_cls.
   - counts. destruct s; simpl; lia.
   - destruct (is_lazy k); [|destruct (is_nil _)]; counts; destruct s; simpl; lia.
   - destruct (is_lazy k); [|destruct (is_nil _)]; counts; destruct s; simpl; lia.
@@ -127,6 +129,7 @@ Proof.
   - reflexivity.
   - reflexivity.
   - reflexivity.
+  - destruct (is_nil (pend_of st k id)); counts; destruct s; simpl; lia.
   - destruct (is_nil (pend_of st k id)); counts; destruct s; simpl; lia.
 Qed.
 
@@ -174,7 +177,7 @@ Proof.
   assert (H2 : sig_eqb s SUpdated = false) by (destruct Hs; subst; reflexivity).
   assert (H3 : sig_eqb s SDestroy = false) by (destruct Hs; subst; reflexivity).
   assert (H4 : sig_eqb s SDestroyed = false) by (destruct Hs; subst; reflexivity).
-  destruct o as [k kw0|k id c v|k id kw0|k id|k id|k id fr|k|k id|k id]; simpl in Ho; try discriminate; unfold step, with_handle.
+  destruct o as [k kw0|k id c v|k id kw0|k id|k id|k id fr|k|k id|k id|k id]; simpl in Ho; try discriminate; unfold step, with_handle.
   - destruct (h_get id _) as [h|]; [|reflexivity]. unfold commit_ures. cbn [snd fst]. apply assign_core_no_create; assumption.
   - destruct (h_get id _) as [h|]; [|reflexivity]. unfold commit_ures. cbn [snd fst]. apply set_core_no_create; assumption.
   - destruct (h_get id _) as [h|]; [|reflexivity]. unfold commit_ures, sync_core. cbn [snd fst].
@@ -195,6 +198,9 @@ Proof.
       rewrite existsb_app, (no_other_sig_after_x _ _ _ _ _ _ H2). reflexivity. }
     destruct (u_out (sync_core g k id (h_pend h) (k_fired (ks st k)))); try (unfold commit_ures; cbn [snd fst]; exact Hx).
     destruct (tbl_has id _); [unfold commit_ures; cbn [snd fst]; exact Hx|cbn [snd fst]; exact Hx].
+  - destruct (h_get id _) as [h|]; [|reflexivity]. unfold commit_ures, sync_core. cbn [snd fst].
+    destruct (is_nil _); cbn [u_tr]; [reflexivity|].
+    rewrite existsb_app, (no_other_sig_after_x _ _ _ _ _ _ H2). reflexivity.
 Qed.
 
 Lemma hist_no_create g ops r s :
@@ -203,4 +209,182 @@ Lemma hist_no_create g ops r s :
 Proof.
   intros Hin Ho Hs. destruct (run_is_step g ops init r Hin) as [_ [H2 _]]. rewrite H2.
   apply step_no_create; assumption.
+Qed.
+
+(* ================================================================== *)
+(* the flush points and the discard point of a lazy instance           *)
+
+Lemma pend_of_other st k0 x k id : k0 <> k -> pend_of (set_ks st k0 x) k id = pend_of st k id.
+Proof. intros H. unfold pend_of. rewrite ks_set_other by exact H. reflexivity. Qed.
+Lemma pend_of_same st k x id :
+  pend_of (set_ks st k x) k id = match h_get id (k_hs x) with Some h => h_pend h | None => [] end.
+Proof. unfold pend_of. rewrite ks_set_same. reflexivity. Qed.
+Lemma cls_eqb_eq a b : cls_eqb a b = true <-> a = b.
+Proof. destruct a, b; simpl; split; intros H; try reflexivity; discriminate. Qed.
+
+(* what an operation on (k0, id0) that ends in commit_ures leaves of the queue of (k, id) *)
+Lemma pend_commit st k0 id0 r k id :
+  pend_of (fst (fst (commit_ures st k0 id0 r))) k id
+  = if cls_eqb k k0 && Z.eqb id id0 then u_pend r else pend_of st k id.
+Proof.
+  unfold commit_ures. cbn [fst].
+  destruct (cls_dec k0 k) as [->|Hn].
+  - rewrite pend_of_same. cbn [k_hs]. replace (cls_eqb k k) with true by (destruct k; reflexivity). cbn [andb].
+    destruct (Z.eqb id id0) eqn:E.
+    + apply Z.eqb_eq in E. subst id0. rewrite h_get_put_same. reflexivity.
+    + apply Z.eqb_neq in E. rewrite h_get_put_other by exact E. reflexivity.
+  - rewrite pend_of_other by exact Hn.
+    destruct (cls_eqb k k0) eqn:E; [apply cls_eqb_eq in E; subst k0; contradiction|reflexivity].
+Qed.
+
+(* expire(): nothing is delivered, nothing is written, the queue of the
+   instance is dropped, no other queue is touched *)
+Lemma step_expire g st k id :
+  snd (step g st (OExpire k id)) = []
+  /\ (forall k', k_tbl (ks (fst (fst (step g st (OExpire k id)))) k') = k_tbl (ks st k'))
+  /\ pend_of (fst (fst (step g st (OExpire k id)))) k id = []
+  /\ (forall k' id', (k' <> k \/ id' <> id) ->
+        pend_of (fst (fst (step g st (OExpire k id)))) k' id' = pend_of st k' id')
+  /\ (snd (fst (step g st (OExpire k id))) = Done \/ snd (fst (step g st (OExpire k id))) = NoHandle).
+Proof.
+  unfold step, with_handle. destruct (h_get id (k_hs (ks st k))) as [h|] eqn:Hh; cbn [fst snd].
+  - repeat split.
+    + intros k'. destruct (cls_dec k k') as [->|Hn]; [rewrite ks_set_same|rewrite ks_set_other by exact Hn]; reflexivity.
+    + rewrite pend_of_same. cbn [k_hs]. rewrite h_get_put_same. reflexivity.
+    + intros k' id' Hne. destruct (cls_dec k k') as [<-|Hn]; [|apply pend_of_other; exact Hn].
+      rewrite pend_of_same. cbn [k_hs]. destruct Hne as [Hne|Hne]; [contradiction|].
+      rewrite h_get_put_other by exact Hne. reflexivity.
+    + left. reflexivity.
+  - repeat split; try reflexivity.
+    + unfold pend_of. rewrite Hh. reflexivity.
+    + right. reflexivity.
+Qed.
+
+Lemma hist_expire g ops r k id :
+  In r (run g init ops) -> r_op r = OExpire k id ->
+  r_tr r = []
+  /\ (forall k', k_tbl (ks (r_post r) k') = k_tbl (ks (r_pre r) k'))
+  /\ pend_of (r_post r) k id = []
+  /\ (forall k' id', (k' <> k \/ id' <> id) -> pend_of (r_post r) k' id' = pend_of (r_pre r) k' id')
+  /\ (r_out r = Done \/ r_out r = NoHandle).
+Proof.
+  intros Hin Hop. destruct (run_is_step g ops init r Hin) as [H1 [H2 H3]]. rewrite H1, H2, H3, Hop.
+  apply step_expire.
+Qed.
+
+(* the three flush points *)
+Lemma flush_cases o k id : is_flush_of o k id = true -> o = OSync k id \/ o = OSyncFull k id \/ o = OPickle k id.
+Proof.
+  destruct o; cbn [is_flush_of]; try discriminate; intros H; apply andb_true_iff in H; destruct H as [H1 H2];
+    apply cls_eqb_eq in H1; apply Z.eqb_eq in H2; subst; auto.
+Qed.
+
+Lemma hist_flush g ops r k id :
+  In r (run g init ops) -> is_flush_of (r_op r) k id = true -> succeeded (r_out r) = true ->
+  r_tr r = flush_events g k id (pend_of (r_pre r) k id)
+  /\ k_tbl (ks (r_post r) k) = tbl_update id (sort_cols (pend_of (r_pre r) k id)) (k_tbl (ks (r_pre r) k))
+  /\ pend_of (r_post r) k id = [].
+Proof.
+  intros Hin Hf Hs. pose proof (hist_spec g ops r Hin Hs) as Hsp. destruct (hist_table g ops r Hin Hs) as [Ht Hp].
+  destruct (flush_cases _ _ _ Hf) as [E|[E|E]]; rewrite E in *; cbn [op_cls op_target] in *;
+    (split; [exact Hsp|split; [exact Ht|exact (Hp k id eq_refl)]]).
+Qed.
+
+(* an empty queue stays empty until the instance is assigned to again *)
+Lemma sync_core_pend_nil g k id fired : u_pend (sync_core g k id [] fired) = [] /\ u_tr (sync_core g k id [] fired) = [].
+Proof. split; reflexivity. Qed.
+
+Lemma step_keeps_empty_queue g st o k id :
+  queues_for o k id = false -> pend_of st k id = [] -> pend_of (fst (fst (step g st o))) k id = [].
+Proof.
+  intros Hq He.
+  assert (Hh : forall h, h_get id (k_hs (ks st k)) = Some h -> h_pend h = []).
+  { intros h Hh. unfold pend_of in He. rewrite Hh in He. exact He. }
+  destruct o as [k0 kw0|k0 id0 c v|k0 id0 kw0|k0 id0|k0 id0|k0 id0 fr|k0|k0 id0|k0 id0|k0 id0]; unfold step.
+  - destruct (raiser _ (sel SCreate (tab g k0))).
+    + cbn [fst]. destruct (cls_dec k0 k) as [->|Hn]; [rewrite pend_of_same; exact He|rewrite pend_of_other by exact Hn; exact He].
+    + destruct (fill_defaults all_cols _); [|exact He]. destruct (negb (validate _)); [exact He|]. cbn [fst].
+      destruct (cls_dec k0 k) as [->|Hn]; [|rewrite pend_of_other by exact Hn; exact He].
+      rewrite pend_of_same. cbn [k_hs]. destruct (_ && _); [|exact He].
+      destruct (Z.eq_dec id (k_next (ks st k))) as [->|Hne]; [rewrite h_get_put_same; reflexivity|].
+      rewrite h_get_put_other by exact Hne. exact He.
+  - unfold with_handle. destruct (h_get id0 _); [|exact He]. rewrite pend_commit.
+    cbn [queues_for] in Hq. rewrite Hq. exact He.
+  - unfold with_handle. destruct (h_get id0 _); [|exact He]. rewrite pend_commit.
+    cbn [queues_for] in Hq. rewrite Hq. exact He.
+  - unfold with_handle. destruct (h_get id0 (k_hs (ks st k0))) as [h|] eqn:E; [|exact He]. rewrite pend_commit.
+    destruct (cls_eqb k k0 && Z.eqb id id0) eqn:E2; [|exact He].
+    apply andb_true_iff in E2. destruct E2 as [E2 E3]. apply cls_eqb_eq in E2. apply Z.eqb_eq in E3. subst k0 id0.
+    rewrite (Hh _ E). reflexivity.
+  - unfold with_handle. destruct (h_get id0 _); [|exact He].
+    destruct (raiser _ (sel SDestroy (tab g k0))); cbn [fst];
+      (destruct (cls_dec k0 k) as [->|Hn]; [rewrite pend_of_same; exact He|rewrite pend_of_other by exact Hn; exact He]).
+  - destruct (tbl_has id0 _); exact He.
+  - exact He.
+  - unfold with_handle. destruct (h_get id0 _); [|exact He]. cbn [fst].
+    destruct (cls_dec k0 k) as [->|Hn]; [|rewrite pend_of_other by exact Hn; exact He].
+    rewrite pend_of_same. cbn [k_hs].
+    destruct (Z.eq_dec id id0) as [->|Hne]; [rewrite h_get_put_same; reflexivity|].
+    rewrite h_get_put_other by exact Hne. exact He.
+  - unfold with_handle. destruct (h_get id0 (k_hs (ks st k0))) as [h|] eqn:E; [|exact He]. cbv zeta.
+    assert (Hx : pend_of (fst (fst (commit_ures st k0 id0 (sync_core g k0 id0 (h_pend h) (k_fired (ks st k0)))))) k id = []).
+    { rewrite pend_commit. destruct (cls_eqb k k0 && Z.eqb id id0) eqn:E2; [|exact He].
+      apply andb_true_iff in E2. destruct E2 as [E2 E3]. apply cls_eqb_eq in E2. apply Z.eqb_eq in E3. subst k0 id0.
+      rewrite (Hh _ E). reflexivity. }
+    destruct (u_out _); try exact Hx. destruct (tbl_has id0 _); exact Hx.
+  - unfold with_handle. destruct (h_get id0 (k_hs (ks st k0))) as [h|] eqn:E; [|exact He]. rewrite pend_commit.
+    destruct (cls_eqb k k0 && Z.eqb id id0) eqn:E2; [|exact He].
+    apply andb_true_iff in E2. destruct E2 as [E2 E3]. apply cls_eqb_eq in E2. apply Z.eqb_eq in E3. subst k0 id0.
+    rewrite (Hh _ E). reflexivity.
+Qed.
+
+Lemma exec_keeps_empty_queue g k id : forall mid st,
+  (forall o, In o mid -> queues_for o k id = false) -> pend_of st k id = [] -> pend_of (exec g st mid) k id = [].
+Proof.
+  induction mid as [|o r IH]; intros st Hq He; [exact He|].
+  unfold exec. cbn [fold_left]. apply IH.
+  - intros o' Ho. apply Hq. right. exact Ho.
+  - apply step_keeps_empty_queue; [apply Hq; left; reflexivity|exact He].
+Qed.
+
+(* a flush of an empty queue: no event, no write *)
+Lemma step_flush_empty g st o k id :
+  is_flush_of o k id = true -> pend_of st k id = [] -> snd (step g st o) = [].
+Proof.
+  intros Hf He. unfold pend_of in He.
+  destruct (flush_cases _ _ _ Hf) as [E|[E|E]]; subst o; unfold step, with_handle;
+    destruct (h_get id (k_hs (ks st k))) as [h|]; try reflexivity; rewrite He; try reflexivity.
+  cbv zeta. cbn [sync_core is_nil u_out u_tr]. destruct (tbl_has id _); reflexivity.
+Qed.
+
+(* what expire() dropped is never written: whatever happens in between, as long
+   as the instance is not assigned to again, its next flush writes nothing and
+   delivers nothing *)
+Lemma expired_queue_never_written g ops k id mid o :
+  (forall o', In o' mid -> queues_for o' k id = false) -> is_flush_of o k id = true ->
+  snd (step g (exec g init (ops ++ OExpire k id :: mid)) o) = [].
+Proof.
+  intros Hq Hf. apply (step_flush_empty g _ o k id Hf).
+  unfold exec. rewrite fold_left_app. cbn [fold_left].
+  apply (exec_keeps_empty_queue g k id mid _ Hq).
+  destruct (step_expire g (fold_left (fun s o0 => fst (fst (step g s o0))) ops init) k id) as [_ [_ [H _]]]. exact H.
+Qed.
+
+(* the final state of a history, as `run` reports it *)
+Lemma run_last_post g : forall ops st d,
+  r_post (last (run g st ops) d) = match ops with [] => r_post d | _ => exec g st ops end.
+Proof.
+  induction ops as [|o r IH]; intros st d; [reflexivity|].
+  cbn [run]. destruct r as [|o' r'].
+  - reflexivity.
+  - specialize (IH (fst (fst (step g st o))) d). cbn [run] in *. cbn [last] in *. rewrite IH. reflexivity.
+Qed.
+
+(* the operations after an expire() are ordinary ones *)
+Lemma hist_after_expire g ops1 k id ops2 r :
+  In r (run g init (ops1 ++ OExpire k id :: ops2)) -> succeeded (r_out r) = true ->
+  r_tr r = spec_events g (r_pre r) (r_op r)
+  /\ k_tbl (ks (r_post r) (op_cls (r_op r))) = spec_table g (r_pre r) (r_op r).
+Proof.
+  intros Hin Hs. split; [exact (hist_spec g _ r Hin Hs)|exact (proj1 (hist_table g _ r Hin Hs))].
 Qed.
